@@ -15,6 +15,7 @@ from . import lib
 MODULE_MC = "MC_Manifest"
 MODULE_T = "T_Manifest"
 DRV = "drv_manifest"
+REACH_INVS = ["InvModel", "InvQueries", "InvFormats", "InvCodeShaped"]
 STAT_KEYS = ["builds", "refusals", "queries", "unspec_events", "ops", "bytes_read"]
 
 K_INSTALL = {"kind": "install", "ver": 1}
@@ -141,7 +142,7 @@ def tla_intset(xs):
     return "{" + ", ".join(str(x) for x in xs) + "}"
 
 
-BASE = {"Family": '"seq"', "D": 3, "D2": 1, "N0": "{0}", "Pats": "{1}", "Orders": '{"tf"}', "Universe": '{"A", "B"}', "MaxBad": 1}
+BASE = {"Family": '"seq"', "D": 3, "D2": 1, "N0": "{0}", "Pats": "{1}", "Orders": '{"tf"}', "Universe": '{"A", "B"}', "MaxBad": 1, "Defects": "{}"}
 
 
 def mc_cfg(ctx, name, mode, over):
@@ -149,7 +150,7 @@ def mc_cfg(ctx, name, mode, over):
     c.update(over)
     cfg = ctx.path(f"mc_{name}_{mode}.cfg")
     if mode == "reach":
-        lib.write_cfg(cfg, c, "MCInit", "MCNext", invariants=["InvModel", "InvQueries", "InvFormats"], view="MCView")
+        lib.write_cfg(cfg, c, "MCInit", "MCNext", invariants=REACH_INVS, view="MCView")
     else:
         lib.write_cfg(cfg, c, "MCInit", "MCNext", invariants=["Emit"])
     return cfg
@@ -161,9 +162,23 @@ def mc_reach(ctx, name, over):
     ctx.cov["states"] += r["distinct"]
     ctx.cov["transitions"] += r["generated"]
     ctx.stage("mc-reach", family=name, distinct_states=r["distinct"], generated=r["generated"], wall_s=r["wall_s"],
-              invariants="InvModel InvQueries InvFormats")
+              invariants=" ".join(REACH_INVS))
     if r["distinct"] < 2:
         raise lib.ToolError(f"MC_Manifest reach {name}: no states explored")
+
+
+def model_witness(ctx):
+    """The code-shaped parts of the model *with* a finding's defect must violate the design invariant (this is
+    how the finding's model-level witness is regenerated); with Defects = {} the same configuration passes
+    (mc_reach)."""
+    out = {}
+    for fid, inv in (("F19a", "InvCodeShaped"), ("F19b", "InvFormats")):
+        cfg = mc_cfg(ctx, f"witness_{fid}", "reach", dict(Family='"size"', D=5, Defects='{"%s"}' % fid))
+        r = lib.tlc(ctx, MODULE_MC, cfg, timeout=300, expect_violation=True, workers=1)
+        out[fid] = inv in r["invariant_violated"]
+        if not out[fid]:
+            raise lib.ToolError(f"model with defect {fid} does not violate {inv}: the model no longer explains the finding")
+    ctx.cov["model_with_defect_violates_property"] = out
 
 
 def mc_gen(ctx, name, over):
@@ -256,7 +271,20 @@ def bitrev(b):
 
 def selftest(ctx, trace, kd):
     """Binding self-test: corrupt one logged field / drop one event -> the monitor must flag exactly that."""
-    lines = lib.read_lines(trace)[:5000]
+    lines = lib.read_lines(trace)
+    # a window of ~1500 events that starts at the first install run in which a tag has a member
+    start = run0 = 0
+    for i, l in enumerate(lines):
+        if lib.is_new(l):
+            run0 = i
+        elif '"kind":"install"' in lines[run0] and '"op":"build"' in l and '"res":"ok"' in l:
+            if any(t["files"] for t in json.loads(l)["obs"]["tags"]):
+                start = run0
+                break
+    end = min(len(lines), start + 1500)
+    while end < len(lines) and not lib.is_new(lines[end]):
+        end += 1
+    lines = lines[start:end]
     cfg = t_cfg(ctx, kd)
 
     def write(name, ls):
@@ -266,6 +294,10 @@ def selftest(ctx, trace, kd):
 
     base = lib.tlc_trace(ctx, MODULE_T, cfg, write("selftest_0.ndjson", lines))
     bad = set(base["violations"])
+    jobs = {}
+
+    def later(name, ls):
+        jobs[name] = write(f"selftest_{name}.ndjson", ls)
     kind_at = {}
     cur = None
     for i, l in enumerate(lines):
@@ -301,36 +333,39 @@ def selftest(ctx, trace, kd):
     o = mask_pos(e)
     e["obs"]["bytes"][o] = bitrev(e["obs"]["bytes"][o])
     la = list(lines); la[ia] = json.dumps(e, separators=(",", ":"))
-    va = lib.tlc_trace(ctx, MODULE_T, cfg, write("selftest_a1.ndjson", la))
-    res["lsb_first_mask_in_raw_bytes_flagged"] = (ia + 1) in va["violations"] and [ia + 1, "bytes"] in va["why"]
+    later("a1", la)
     # (a2) one file missing from an all-of answer
     ib, e = find(lambda i, e: any(len(a["all"]) >= 1 and len(q) >= 1 for a, q in zip(e["obs"].get("q", []), e["q"])))
     j = next(j for j, (a, q) in enumerate(zip(e["obs"]["q"], e["q"])) if len(a["all"]) >= 1 and len(q) >= 1)
     e["obs"]["q"][j]["all"] = e["obs"]["q"][j]["all"][1:]
     lb = list(lines); lb[ib] = json.dumps(e, separators=(",", ":"))
-    vb = lib.tlc_trace(ctx, MODULE_T, cfg, write("selftest_a2.ndjson", lb))
-    res["wrong_query_answer_flagged"] = (ib + 1) in vb["violations"] and [ib + 1, "query"] in vb["why"]
+    later("a2", lb)
     # (a3) a size total off by one
     ic, e = find(lambda i, e: any(len(q) >= 1 for q in e["q"]) and "q" in e["obs"])
     j = next(j for j, q in enumerate(e["q"]) if len(q) >= 1)
     e["obs"]["q"][j]["size"][1] += 1
     lc = list(lines); lc[ic] = json.dumps(e, separators=(",", ":"))
-    vc = lib.tlc_trace(ctx, MODULE_T, cfg, write("selftest_a3.ndjson", lc))
-    res["wrong_size_total_flagged"] = (ic + 1) in vc["violations"]
+    later("a3", lc)
     # (a4) the parsed projection of a tag gains a file
     idd, e = find(lambda i, e: any(len(t["files"]) < len(e["obs"]["files"]) for t in e["obs"]["tags"]))
     t = next(t for t in e["obs"]["tags"] if len(t["files"]) < len(e["obs"]["files"]))
     extra = next(x for x in range(len(e["obs"]["files"])) if x not in t["files"])
     t["files"] = sorted(t["files"] + [extra])
     ld = list(lines); ld[idd] = json.dumps(e, separators=(",", ":"))
-    vd = lib.tlc_trace(ctx, MODULE_T, cfg, write("selftest_a4.ndjson", ld))
-    res["wrong_parsed_membership_flagged"] = (idd + 1) in vd["violations"] and [idd + 1, "parsed"] in vd["why"]
+    later("a4", ld)
     # (b) drop one event inside a run
     ie = next(i for i, l in enumerate(lines) if i > 20 and not lib.is_new(l) and i + 1 < len(lines) and not lib.is_new(lines[i + 1])
               and (i + 2) not in bad)
     le = list(lines); del le[ie]
-    ve = lib.tlc_trace(ctx, MODULE_T, cfg, write("selftest_b.ndjson", le))
-    res["drop_one_event_flagged"] = (ie + 1) in ve["violations"]
+    later("b", le)
+    from concurrent.futures import ThreadPoolExecutor
+    with ThreadPoolExecutor(max_workers=min(5, lib.NCPU)) as ex:
+        vs = dict(zip(jobs, ex.map(lambda p: lib.tlc_trace(ctx, MODULE_T, cfg, p), jobs.values())))
+    res["lsb_first_mask_in_raw_bytes_flagged"] = (ia + 1) in vs["a1"]["violations"] and [ia + 1, "bytes"] in vs["a1"]["why"]
+    res["wrong_query_answer_flagged"] = (ib + 1) in vs["a2"]["violations"] and [ib + 1, "query"] in vs["a2"]["why"]
+    res["wrong_size_total_flagged"] = (ic + 1) in vs["a3"]["violations"]
+    res["wrong_parsed_membership_flagged"] = (idd + 1) in vs["a4"]["violations"] and [idd + 1, "parsed"] in vs["a4"]["why"]
+    res["drop_one_event_flagged"] = (ie + 1) in vs["b"]["violations"]
     for k in ("lsb_first_mask_in_raw_bytes_flagged", "wrong_query_answer_flagged", "wrong_size_total_flagged", "wrong_parsed_membership_flagged"):
         res[k] = res[k] and not bad
     ctx.cov["binding_selftest"] = res
@@ -350,7 +385,7 @@ def run(ctx):
                  ("edge", dict(Family='"edge"', D=1, D2=1, N0=n017, Pats="{1, 2, 3, 4, 5}", Orders='{"tf", "ft"}')),
                  ("size", dict(Family='"size"', D=5))]
         gen = [("seq", dict(Family='"seq"', D=4), FULL, ()),
-               ("edge2", dict(Family='"edge"', D=2, N0="{0, 1, 7, 8, 9, 15, 16, 17}", Pats="{1}", Orders='{"tf"}'), [K_INSTALL], (K_DL1, K_DL2, K_DL3)),
+               ("edge2", dict(Family='"edge"', D=2, N0="{1, 7, 8, 9, 16}", Pats="{1}", Orders='{"tf"}'), [K_INSTALL], (K_DL1, K_DL2, K_DL3)),
                ("edge1", dict(Family='"edge"', D=1, D2=1, N0=n017, Pats="{1, 2, 3, 4, 5}", Orders='{"tf", "ft"}'), [K_INSTALL], (K_DL3, K_DL2, K_DL1)),
                ("size", dict(Family='"size"', D=5), SIZES, ())]
         nrand = 150
@@ -366,6 +401,7 @@ def run(ctx):
         nrand = 2500
     for name, over in reach:
         mc_reach(ctx, name, over)
+    model_witness(ctx)
     total = distinct = 0
     keep = []
     for name, over, kinds, rotate in gen:
@@ -373,7 +409,8 @@ def run(ctx):
         total += n
         distinct += dn
     # deterministic sweep over every file count 0..70 on every container kind + seeded random programs
-    for source, args, maxev in (("sweep 0..70", ["--sweep", 70], 2500), (f"random seed={ctx.seed}", ["--random", nrand], 2500)):
+    sweep_args = ["--sweep", 70] + (["--lite"] if ctx.quick else [])
+    for source, args, maxev in (("sweep 0..70", sweep_args, 2000), (f"random seed={ctx.seed}", ["--random", nrand], 2000)):
         tag = source.split()[0]
         trace, dump = ctx.path(f"trace_{tag}.ndjson"), ctx.path(f"prog_{tag}.ndjson")
         d = lib.run_driver(DRV, args + ["--out", trace, "--dump-programs", dump], env={"VERIF_SEED": ctx.seed})
@@ -409,7 +446,8 @@ def run(ctx):
     ctx.assumptions += ["TLC and the CommunityModules JSON reader are trusted; the driver's projection (indices returned by the query "
                         "API, sizes split into 24-bit halves, the file id read from the first two key bytes) is trusted",
                         "tag names are unique within a manifest (documented precondition of add_tag); programs never add a name twice",
-                        "a builder that refuses to build has produced no manifest and conforms (counted as builder_refusals)",
+                        "a builder may refuse only what the container cannot express (a size wider than its field; a size-manifest "
+                        "tag naming a position no entry fills); such refusals conform and are counted as builder_refusals",
                         "the answer to a query with no tag names is left open (install answers none, download answers all)",
                         "install manifests: version 1 only (the builder cannot produce version 2)"]
     return lib.finish(ctx, "model_checking",
